@@ -58,12 +58,14 @@ def build(pid, log):
         mods += ['FCA.Props.' + os.path.basename(f)[:-5] for f in more]
         gen = os.path.join(LEAN, 'FCA', 'Props', pid + 'Gen.lean')
         have_gen = os.path.exists(gen)
-        gen_source = {'C08': 'Predicates', 'C16': 'Junctors', 'C12': 'Formats', 'C01': 'Loops',
-                      'C03': 'Lindig', 'C05': 'Lindig', 'C04': 'Fcbo', 'C19': 'Validate'}.get(pid)
-        declined = bool(gen_source) and str(info['extraction'].get(gen_source, '')).startswith('declined')
+        gen_sources = {'C08': ['Predicates'], 'C16': ['Junctors'], 'C12': ['Formats'], 'C01': ['Loops'],
+                       'C03': ['Lindig', 'LindigLattice'], 'C05': ['Lindig'], 'C04': ['Fcbo'], 'C19': ['Validate'],
+                       'C09': ['Iterunion', 'Predicates'], 'C10': ['Annotate']}.get(pid, [])
+        bad_sources = [g for g in gen_sources if str(info['extraction'].get(g, '')).startswith('declined')]
+        declined = bool(bad_sources)
         if declined:
             info['notes'].append('extraction declined (%s): the theorems over the regenerated kernels are not checked against the '
-                                 'current source on this run' % info['extraction'][gen_source])
+                                 'current source on this run' % '; '.join('%s: %s' % (g, info['extraction'][g]) for g in bad_sources))
         src_files = [os.path.join(LEAN, 'FCA', 'Props', pid + '.lean')]
         have_props = os.path.exists(src_files[0])
         src_files += more
